@@ -373,6 +373,11 @@ func (p *parser) validateBinaryType(binaryExp *BinaryExpression) {
 
 	leftType := binaryExp.Left.Type()
 	rightType := binaryExp.Right.Type()
+	if leftType == NONE_TYPE || rightType == NONE_TYPE {
+		msg := fmt.Sprintf("invalid operand for %s, function has no return value", op)
+		p.appendErrorForToken(msg, tok)
+		return
+	}
 	if !(leftType.matches(rightType) || (leftType.Name == ARRAY && op == OP_ASTERISK)) {
 		msg := fmt.Sprintf("mismatched type for %s: %s, %s", op, leftType, rightType)
 		p.appendErrorForToken(msg, tok)
